@@ -68,6 +68,9 @@ KNOWN_DEVIATIONS = {
         '15 + X.690 11.3.1: mantissa N in the fewest octets; asn1tools prefixes a 00 octet when the top bit of N is set (255.0 -> 80 00 00 ff)',
     'Q:real-minus-zero':
         '15 + X.690 8.5.3/8.5.9: minus zero is the single contents octet 43; asn1tools encodes -0.0 as plus zero (no contents)',
+    'Q:one-character-alphabet-zero-bits':
+        '(reading) 30.5.2: a one-character alphabet needs B = 0 bits, and B2 = "the smallest power of 2 that is >= B" = 1 bit per character in the '
+        'ALIGNED variant; asn1tools uses 0 bits in both variants',
     'Q:enumerated-index-not-aligned':
         '14.2 + 11.5.7.2/11.5.7.3: the index of an ENUMERATED with 256 or more root items is an octet-aligned one/two-octet field in the '
         'ALIGNED variant; asn1tools writes it as an unaligned bit-field',
@@ -80,6 +83,13 @@ KNOWN_DEVIATIONS = {
     "E:.*Sequence member 'g' not found":
         '19.2: "g NULL DEFAULT NULL" is an ordinary DEFAULT component (preamble bit, may be absent); asn1tools treats it as mandatory '
         '(the parser stores the default None)',
+    r'X:edge/(set/(untagged|tagged|choice|ref-tags) |ref/(imports-set|components-of-auto)/)':
+        '21.1 + X.680 8.6: SET components without a textual tag are ordered by the universal tag of their type; asn1tools cannot '
+        'compile such a SET for per/uper (TypeError while sorting None tags) unless automatic tagging applies to it',
+    r'X:edge/int/contained/':
+        'X.680 51.3 contained subtype INTEGER (B): PER-visible (10.3.16); asn1tools: TypeError at compile time',
+    r'X:edge/alias/':
+        'X.680 41: ISO646String and T61String are synonyms of VisibleString / TeletexString; asn1tools: CompileError (type not found)',
     r'C:edge/int/union/':
         '10.3.19 (effective constraint of a union is the span of all its elements): INTEGER (1..5 | 10..20) is 1..20; asn1tools uses the '
         'first element only and produces wrong octets for 10..20',
@@ -91,17 +101,17 @@ KNOWN_DEVIATIONS = {
         '10.3.10: an extensible permitted-alphabet constraint is not PER-visible (characters of the unconstrained type); asn1tools uses its root',
     r'C:edge/from/bmp-low/per':
         '30.5.4: no re-indexing when the largest permitted character value fits in B bits (BMPString FROM("a".."z"), ALIGNED: 122 <= 255); asn1tools re-indexes',
-    r'C:edge/from/ref-(size|from)/':
+    r'C:edge/from/ref-(size|from|from-ext)/':
         '10.3.18: a SIZE / FROM constraint applied to a reference to a constrained character string type is PER-visible; asn1tools ignores it',
     r'C:edge/from/NumericString\(FROM.*/per':
         '30.5.4: the index is the position in the EFFECTIVE permitted alphabet; asn1tools (ALIGNED only) uses the position in the full NumericString alphabet',
     r'C:edge/from/numeric-digits/per':
         '30.5.4: as above (NumericString (FROM("0".."9")): "0" is index 0, asn1tools sends 1)',
-    r'C:edge/from/[A-Za-z0-9]+\(FROM\("5"\)\).*/per':
-        '(reading) 30.5.2: a one-character alphabet needs B = 0 bits and B2 = "the smallest power of 2 >= B" = 1 bit in the ALIGNED variant; asn1tools uses 0 bits',
     r'C:edge/seq/group-null/':
         '19.9: an extension addition group is present when one of its components is; asn1tools treats a group whose only present components '
         'are NULL / empty as absent',
+    r'C:edge/seq/default-null/':
+        '19.2: "g NULL DEFAULT NULL" has a preamble bit like any DEFAULT component; asn1tools (parser stores the default None) sends none',
     r'C:edge/seq/default-(real|oid)/':
         '19.5: REAL / OBJECT IDENTIFIER components equal to their DEFAULT are not encoded (simple types); asn1tools never recognises these defaults',
 }
@@ -214,6 +224,12 @@ class Asn1toolsLike(object):
                 if q != std and self.aligned:
                     self.fired.add('string-alignment-by-character-count')
                 return q
+
+            def char_bits(self, N):
+                if N == 1 and self.aligned:
+                    self.fired.add('one-character-alphabet-zero-bits')
+                    return 0
+                return x691._Per.char_bits(self, N)
 
             def align_field(self, buf, nitems, kind):
                 if kind in ('octets', 'bits') and nitems == 0:
@@ -544,16 +560,19 @@ class ValueGen:
 def run_specs(tally, specs, per_spec=12, seed=1):
     import asn1tools
     for sid, text, type_name, module in specs:
-        parsed = asn1tools.parse_string(text)
+        parsed, compiled = parse_and_compile(text)
         enum = 'ENUMERATED' in text
         for codec in ('per', 'uper'):
             for numeric in ((False, True) if enum else (False,)):
-                try:
-                    compiled = asn1tools.compile_string(text, codec, numeric_enums=numeric)
-                except Exception as e:      # noqa
-                    tally.skip('asn1tools cannot compile: %s' % type(e).__name__)
-                    if VERBOSE:
-                        print('  compile failed', sid, codec, repr(e)[:100])
+                case = '%s/%s%s' % (sid, codec, '/numeric' if numeric else '')
+                spec = compiled[codec]
+                if numeric and not isinstance(spec, Exception):
+                    key = (text, codec, 'numeric')
+                    if key not in _CACHE:
+                        _CACHE[key] = asn1tools.compile_dict(copy.deepcopy(parsed), codec, numeric_enums=True)
+                    spec = _CACHE[key]
+                if isinstance(spec, Exception):
+                    compile_failure(tally, case, spec)
                     continue
                 rng = random.Random('%s/%s/%d' % (sid, numeric, seed))
                 gen = ValueGen(parsed, rng, numeric)
@@ -563,9 +582,8 @@ def run_specs(tally, specs, per_spec=12, seed=1):
                     except NotImplementedError:
                         tally.skip('generator: type')
                         break
-                    case = '%s/%s%s' % (sid, codec, '/numeric' if numeric else '')
                     compare(tally, case, parsed, module, type_name, v, codec,
-                            lambda: compiled.encode(type_name, v), numeric)
+                            lambda: spec.encode(type_name, v), numeric)
 
 
 def corpus_specs():
@@ -580,12 +598,13 @@ def M(body, tags='AUTOMATIC TAGS'):
     return 'T DEFINITIONS %s ::= BEGIN\n%s\nEND\n' % (tags, body)
 
 
-# (id, module text, type, [values])
+# (id, module text, type, [values], (body, tags) when the case may share a module with others)
 EDGE = []
 
 
 def E(id, body, values, type='A', tags='AUTOMATIC TAGS'):
-    EDGE.append((id, M(body, tags), type, values))
+    single = body.count('::=') == 1 and body.startswith('A ::=') and not re.search(r'[^"\w]A[^"\w]', body[5:])
+    EDGE.append((id, M(body, tags), type, values, (body, tags) if single else None))
 
 
 _INTS = [0, 1, 127, 128, 254, 255, 256, 65535, 65536, 65537, 2 ** 24 - 1, 2 ** 24, 2 ** 32 - 1, 2 ** 32, 2 ** 64 + 5]
@@ -715,7 +734,7 @@ E('seq/group-null', 'A ::= SEQUENCE { r BOOLEAN, ..., [[ c NULL, d INTEGER DEFAU
   [{'r': True}, {'r': True, 'c': None}, {'r': True, 'c': None, 'd': 4}, {'r': True, 'c': None, 'd': 5}, {'r': True, 'e': {}}])
 E('seq/ext-group', 'A ::= SEQUENCE { r BOOLEAN, ..., [[ a INTEGER (0..7) OPTIONAL, b BOOLEAN OPTIONAL ]], [[ c BOOLEAN, d INTEGER DEFAULT 4 ]], e OCTET STRING (SIZE(0..3)) }',
   [{'r': True}, {'r': True, 'a': 3}, {'r': True, 'b': True, 'c': True}, {'r': True, 'c': False, 'd': 4}, {'r': True, 'c': True, 'd': 5, 'e': b''},
-   {'r': True, 'e': b'\x01\x02\x03'}])
+   {'r': True, 'a': 1, 'c': False, 'e': b'\x01\x02\x03'}])
 E('seq/ext-default', 'A ::= SEQUENCE { r BOOLEAN, ..., a INTEGER DEFAULT 3, b BOOLEAN }',
   [{'r': True, 'a': 3}, {'r': True, 'a': 4}, {'r': True, 'a': 3, 'b': True}])
 E('seq/ext-second-marker', 'A ::= SEQUENCE { r BOOLEAN, ..., a INTEGER (0..7), ..., z INTEGER (0..3) OPTIONAL }',
@@ -754,6 +773,11 @@ for _tags in ('AUTOMATIC TAGS', 'IMPLICIT TAGS', 'EXPLICIT TAGS', ''):
       [{'a': 1, 'b': True, 'c': 6, 'd': {'x': None}}], tags=_tags)
     E('set/ext %s' % _tags, 'A ::= SET { z [9] INTEGER (0..7), y [3] BOOLEAN, ..., x [1] INTEGER (0..3), w [0] BOOLEAN }',
       [{'z': 1, 'y': True}, {'z': 1, 'y': True, 'x': 3}, {'z': 1, 'y': True, 'x': 3, 'w': False}], tags=_tags)
+    E('set/all-tagged %s' % _tags, 'A ::= SET { a [5] INTEGER (0..7), b [1] BOOLEAN, c [APPLICATION 0] INTEGER (0..3), d [PRIVATE 0] INTEGER (0..3), '
+      'f [UNIVERSAL 1] IMPLICIT INTEGER (0..1), g [30] EXPLICIT NULL OPTIONAL, h [APPLICATION 7] EXPLICIT OCTET STRING (SIZE(1)), i [PRIVATE 1] BOOLEAN }',
+      [{'a': 7, 'b': True, 'c': 3, 'd': 0, 'f': 1, 'g': None, 'h': b'\x55', 'i': True}, {'a': 0, 'b': False, 'c': 1, 'd': 2, 'f': 0, 'h': b'\xaa', 'i': False}], tags=_tags)
+    E('set/ref-tagged %s' % _tags, 'A ::= SET { a B, b C, c [0] B, d [APPLICATION 2] D }\nB ::= [APPLICATION 3] INTEGER (0..7)\nC ::= [APPLICATION 1] EXPLICIT BOOLEAN\nD ::= SEQUENCE { x NULL }',
+      [{'a': 1, 'b': True, 'c': 6, 'd': {'x': None}}], tags=_tags)
     # 23 CHOICE
     E('choice/tagged %s' % _tags, 'A ::= CHOICE { a [5] INTEGER (0..7), b [1] BOOLEAN, c [APPLICATION 0] INTEGER (0..3), d [PRIVATE 0] NULL, e OCTET STRING (SIZE(1)) }',
       [('a', 7), ('b', True), ('c', 2), ('d', None), ('e', b'\x42')], tags=_tags)
@@ -783,9 +807,10 @@ E('top/int-single', 'A ::= INTEGER (7)', [7])
 E('top/fixed-empty', 'A ::= OCTET STRING (SIZE(0))', [b''])
 E('ref/recursive', 'A ::= SEQUENCE { v INTEGER (0..7), next A OPTIONAL, ..., more SEQUENCE OF A }',
   [{'v': 1, 'next': {'v': 2, 'next': {'v': 3}, 'more': [{'v': 4}]}}])
-EDGE.append(('ref/imports', 'T DEFINITIONS AUTOMATIC TAGS ::= BEGIN\nIMPORTS B, E FROM U;\nA ::= SET { a B, b [0] E, c INTEGER (0..7) }\nEND\n'
-             'U DEFINITIONS EXPLICIT TAGS EXTENSIBILITY IMPLIED ::= BEGIN\nB ::= SET { x INTEGER (0..300), y [0] BOOLEAN OPTIONAL }\n'
-             'E ::= ENUMERATED { p, q }\nEND\n', 'A', [{'a': {'x': 300, 'y': True}, 'b': 'q', 'c': 5}, {'a': {'x': 0}, 'b': 'p', 'c': 0}]))
+EDGE.append(('ref/imports', 'T DEFINITIONS AUTOMATIC TAGS ::= BEGIN\nIMPORTS B, E FROM U;\nA ::= SEQUENCE { a B, b [0] E, c INTEGER (0..7) }\nEND\n'
+             'U DEFINITIONS EXPLICIT TAGS EXTENSIBILITY IMPLIED ::= BEGIN\nB ::= SEQUENCE { x INTEGER (0..300), y [0] BOOLEAN OPTIONAL }\n'
+             'E ::= ENUMERATED { p, q }\nEND\n', 'A', [{'a': {'x': 300, 'y': True}, 'b': 'q', 'c': 5}, {'a': {'x': 0}, 'b': 'p', 'c': 0}], None))
+EDGE.append(('ref/imports-set', EDGE[-1][1].replace('SEQUENCE', 'SET'), 'A', EDGE[-1][3], None))
 E('ref/components-of', 'A ::= SET { a [3] BOOLEAN, COMPONENTS OF B, z [0] INTEGER (0..3) }\nB ::= SET { p [2] INTEGER (0..7), q [1] BOOLEAN OPTIONAL, ..., r NULL }',
   [{'a': True, 'p': 5, 'q': False, 'z': 2}, {'a': False, 'p': 0, 'z': 3}], tags='IMPLICIT TAGS')
 E('ref/components-of-auto', 'A ::= SET { a BOOLEAN, COMPONENTS OF B, z INTEGER (0..3) }\nB ::= SET { p [2] INTEGER (0..7), q [1] BOOLEAN OPTIONAL }',
@@ -793,84 +818,142 @@ E('ref/components-of-auto', 'A ::= SET { a BOOLEAN, COMPONENTS OF B, z INTEGER (
 E('alias', 'A ::= SEQUENCE { a ISO646String (SIZE(2)), b T61String }', [{'a': 'ab', 'b': 'cd'}])
 
 
-def run_edge(tally):
+_CACHE = {}
+
+
+def parse_and_compile(text):
+    """parsed dictionary and {codec: Specification or the exception raised} (asn1tools builds its
+    pyparsing grammar anew for every call, about half a second: cache per text)"""
     import asn1tools
-    for sid, text, type_name, values in EDGE:
-        try:
-            parsed = asn1tools.parse_string(text)
-        except Exception as e:      # noqa
-            tally.skip('asn1tools cannot parse: edge/%s' % sid)
-            continue
+    if text not in _CACHE:
+        parsed = asn1tools.parse_string(text)
+        compiled = {}
         for codec in ('per', 'uper'):
             try:
-                compiled = asn1tools.compile_string(text, codec)
+                compiled[codec] = asn1tools.compile_dict(copy.deepcopy(parsed), codec)
             except Exception as e:      # noqa
-                tally.skip('asn1tools cannot compile: %s' % type(e).__name__)
-                if VERBOSE:
-                    print('  compile failed', sid, codec, repr(e)[:100])
-                continue
-            for v in values:
-                compare(tally, 'edge/%s/%s' % (sid, codec), parsed, 'T', type_name, v, codec,
-                        lambda: compiled.encode(type_name, v))
+                compiled[codec] = e
+        _CACHE[text] = (parsed, compiled)
+    return _CACHE[text]
+
+
+def run_edge(tally, batch=40):
+    # cases made of a single type definition share modules (one module per tagging default and
+    # `batch` cases); if asn1tools cannot compile a shared module its cases are run one by one
+    jobs = []           # (text, [(sid, type name, values)])
+    pools = {}
+    for sid, text, type_name, values, single in EDGE:
+        if single is None:
+            jobs.append((text, [(sid, type_name, values)]))
+        else:
+            pools.setdefault(single[1], []).append((sid, single[0], values, text))
+    for tags, pool in pools.items():
+        for i in range(0, len(pool), batch):
+            part = pool[i:i + batch]
+            body = '\n'.join('A%d%s' % (k, b[1:]) for k, (_sid, b, _v, _t) in enumerate(part))
+            jobs.append((M(body, tags), [(sid, 'A%d' % k, values) for k, (sid, _b, values, _t) in enumerate(part)],
+                         [(t, [(sid, 'A', values)]) for sid, _b, values, t in part]))
+    while jobs:
+        job = jobs.pop(0)
+        text, cases = job[0], job[1]
+        try:
+            parsed, compiled = parse_and_compile(text)
+        except Exception as e:      # noqa
+            if len(job) > 2:
+                jobs = job[2] + jobs
+            else:
+                tally.unexpected.append(('PARSE', 'edge/' + cases[0][0], 'asn1tools cannot parse: %s' % str(e)[:200]))
+            continue
+        if len(job) > 2 and any(isinstance(c, Exception) for c in compiled.values()):
+            jobs = job[2] + jobs
+            continue
+        for codec in ('per', 'uper'):
+            spec = compiled[codec]
+            for sid, type_name, values in cases:
+                case = 'edge/%s/%s' % (sid, codec)
+                if isinstance(spec, Exception):
+                    compile_failure(tally, case, spec)
+                    continue
+                for v in values:
+                    compare(tally, case, parsed, 'T', type_name, v, codec, lambda: spec.encode(type_name, v))
+
+
+def compile_failure(tally, case, exc):
+    text = 'asn1tools cannot compile: %s: %s' % (type(exc).__name__, str(exc)[:120])
+    for pat in KNOWN_DEVIATIONS:
+        if pat.startswith('X:') and re.match(pat[2:], case):
+            tally.known.setdefault(pat, []).append((case, text))
+            return
+    tally.unexpected.append(('COMPILE', case, text))
 
 
 # ---------------------------------------------------------------------------------------------
 # symbolic smoke test (run in a sub-process: the import hook must precede asn1tools)
 # ---------------------------------------------------------------------------------------------
-def smoke():
+def smoke(max_paths=25):
+    """the model executed on pyfront proxies, every path of the exploration (up to max_paths per
+    template and variant): the symbolic octets evaluated under a model of the path condition must be
+    the octets the model computes for the concretized value"""
     from lib import codec as C          # installs the import hook  # noqa: F401
     import symcore
-    import z3
-    from pyfront import SymStr
     from lib.runner import Ctx
     from lib.symvalue import Gen, Bounds, concretize
     from lib.codec import asn1tools
     from models import x691
     import corpus
 
-    failures = 0
-    checked = 0
-    ids = ['int-m5-300', 'int-u32p', 'int-ext', 'int-max', 'int', 'octets-range', 'bits-named', 'bits-range', 'seq-opt',
-           'seq-ext-group', 'set-tags', 'choice-ext', 'seqof-ext', 'ia5-from5', 'numeric', 'printable', 'utf8', 'bmp',
-           'oid', 'combo-uper6', 'combo-bits-default', 'defaults-by-ref', 'combo-depth3', 'c11-ext', 'enum-ext']
+    stats = dict(paths=0, checked=0, mismatch=0, rejected=0, inconclusive=0, differs=0)
+    reasons = {}
+    ids = ['int-m5-300', 'int-u32p', 'int-s64', 'int-ext', 'int-max', 'int-min', 'int', 'octets-range', 'octets-ext', 'bits-named',
+           'bits-named-size', 'bits-range', 'seq-opt', 'seq-ext-group', 'seq-ext-mixed', 'set-tags', 'choice-ext', 'seqof-ext',
+           'ia5-from5', 'numeric', 'printable', 'utf8', 'bmp', 'universal', 'general', 'oid', 'real', 'enum-ext', 'combo-uper6',
+           'combo-bits-default', 'defaults-by-ref', 'combo-depth3', 'c11-ext', 'c11-strings', 'combo-import', 'tag-choice']
     for tid in ids:
         tpl = corpus.BY_ID[tid]
         parsed = asn1tools.parse_string(tpl['text'])
         td = parsed[tpl['module']]['types'][tpl['type']]
         for codec in ('per', 'uper'):
             compiled = asn1tools.compile_string(tpl['text'], codec)
-            for seed in range(3):
-                eng = symcore.Engine()
-                symcore.Engine.cur = eng
-                ctx = Ctx(eng, symcore.PathResult(), {'id': 'smoke'}, [])
-                gen = Gen(parsed, Bounds(int_abs=1 << 40, n_len=2, depth=4, str_len=2, oid_arcs=3))
+            gen = Gen(parsed, Bounds(int_abs=1 << 40, n_len=2, depth=4, str_len=2, oid_arcs=3))
+
+            def harness(ctx):
                 try:
                     v = gen.value(ctx, td, tpl['module'])
                     buf = x691.encode(parsed, tpl['module'], tpl['type'], v, codec == 'per')
                     cells = buf.cells()
-                except x691.EncodeError:
-                    continue
-                # any model of the path condition: the symbolic octets evaluated under it must be the
-                # octets the model produces for the concretized value, and what asn1tools produces
-                s = z3.Solver()
-                for a in eng.path_condition() if hasattr(eng, 'path_condition') else []:
-                    s.add(a)
-                m = eng.get_model()
+                except x691.EncodeError as e:
+                    stats['rejected'] += 1
+                    why = '%s: %s' % (tid, re.sub(r'\d+', 'N', str(e)))
+                    reasons[why] = reasons.get(why, 0) + 1
+                    return
+                m = ctx.eng.get_model()
                 cv = concretize(v, m)
                 sym = bytes(m.eval(c, model_completion=True).as_long() for c in cells)
                 conc = x691.encode(parsed, tpl['module'], tpl['type'], cv, codec == 'per').concrete()
-                checked += 1
+                stats['checked'] += 1
                 if sym != conc:
-                    failures += 1
+                    stats['mismatch'] += 1
                     print('SMOKE MISMATCH (symbolic vs concrete model)', tid, codec, cv, sym.hex(), conc.hex())
                 try:
                     lib = bytes(compiled.encode(tpl['type'], cv))
-                except Exception as e:      # noqa
+                except Exception:      # noqa
                     lib = None
                 if lib is not None and lib != conc:
-                    print('smoke: model differs from asn1tools', tid, codec, cv, conc.hex(), lib.hex())
-    print('smoke: %d symbolic encodings checked against the concrete model, %d mismatches' % (checked, failures))
-    return 1 if failures else 0
+                    stats['differs'] += 1
+            results, _left = symcore.explore(harness, max_paths=max_paths,
+                                             ctx_factory=lambda eng, res: Ctx(eng, res, {'id': 'smoke'}, []))
+            stats['paths'] += len(results)
+            stats['inconclusive'] += sum(1 for r in results if r.inconclusive)
+            for r in results:
+                if r.inconclusive and VERBOSE:
+                    print('  inconclusive', tid, codec, r.inconclusive)
+    print('smoke: %(paths)d symbolic paths over the corpus; %(checked)d symbolic encodings compared with the concrete model: '
+          '%(mismatch)d mismatches; %(rejected)d paths rejected by the model (EncodeError), %(inconclusive)d inconclusive; '
+          '%(differs)d of the concretized values encode differently in asn1tools (deviations, see the concrete part)' % stats)
+    if VERBOSE:
+        for why, n in sorted(reasons.items()):
+            print('  rejected %3d  %s' % (n, why))
+    return 1 if stats['mismatch'] else 0
 
 
 # ---------------------------------------------------------------------------------------------
